@@ -23,6 +23,18 @@
 (*   Read     : ffile.read() and the comparison with the rendered kernel      *)
 (*   CloseR   : end of the `with` block                                       *)
 (*                                                                            *)
+(* PROCESSES.  A run is one call of rename_and_write.  Every run belongs to a  *)
+(* process `proc[r]`; the runs of one process happen one after the other in   *)
+(* run order (two kernel objects of one PSy layer that were transformed        *)
+(* differently, a second generate() of the same process, ...), runs of         *)
+(* different processes interleave arbitrarily.  Begin(r) is the entry of the  *)
+(* call (no file-system call, but the point at which an implementation may    *)
+(* consult what its PROCESS remembers).  `known[p]` records what a process    *)
+(* may legitimately remember - <<name, content>> pairs it wrote or verified - *)
+(* and MemorySound shows those facts stay true on disk; the property clauses  *)
+(* are about the disk and hold for runs that share a process as well: in the  *)
+(* 'single' scheme a run fails iff its kernel differs from the shared file.   *)
+(*                                                                            *)
 (* _rename_psyir(new_suffix) and the rendering touch only the run's own       *)
 (* objects, commute with every action of every other run and are folded into  *)
 (* the file-system action next to them (the last Create / MkTemp): `used` =   *)
@@ -93,12 +105,17 @@ SingleFailOnlyIfDifferent(F, vr, pr, rs, R) ==
 \* ------------------------------------------------------------- state machine
 VARIABLES scheme, pre, ver, split,   \* the case: naming scheme, earlier file,
                                      \* version per run, split writes
+          proc,               \* the case: process of every run
+          known,              \* per process: <<name, content>> pairs written/verified
           fs,                 \* the shared directory: final kernel files
           tmp,                \* the shared directory: temporary files (one per run)
           pc, idx, fd, used, seen, res,      \* per run
           lastOp              \* history: the file-system call just made
-vars == <<scheme, pre, ver, split, fs, tmp, pc, idx, fd, used, seen, res, lastOp>>
+vars == <<scheme, pre, ver, split, proc, known, fs, tmp, pc, idx, fd, used, seen, res, lastOp>>
 
+Growth(f, n) == /\ f[1] = 1
+                /\ \A r \in Runs : r > n => f[r] = 1
+                /\ \A r \in 2..n : \E q \in 1..(r - 1) : f[r] <= f[q] + 1
 Op(r, call, n, rc, cls) == [run |-> r, call |-> call, name |-> n, res |-> rc, cls |-> cls]
 Active == {r \in Runs : pc[r] # "off"}
 
@@ -107,14 +124,13 @@ Init ==
   /\ pre \in PreChoices
   /\ split \in SplitChoices
   /\ \E n \in RunCounts :
-       /\ pc = [r \in Runs |-> IF r > n THEN "off"
-                               ELSE IF scheme = "single" THEN "mktemp" ELSE "create"]
+       /\ pc = [r \in Runs |-> IF r > n THEN "off" ELSE "idle"]
        /\ res = [r \in Runs |-> IF r <= n THEN "run" ELSE "off"]
-       \* runs are interchangeable: versions in non-decreasing order, first = 1
-       /\ ver \in {v \in [Runs -> Versions] :
-                     /\ v[1] = 1
-                     /\ \A r \in Runs : r > n => v[r] = 1
-                     /\ \A r \in 1..(n - 1) : v[r] <= v[r + 1] /\ v[r + 1] <= v[r] + 1}
+       \* versions and processes up to renaming: the first run has 1, a later run
+       \* has one of the earlier values or the next new one
+       /\ ver \in {v \in [Runs -> Versions] : Growth(v, n)}
+       /\ proc \in {q \in [Runs -> Runs] : Growth(q, n)}
+  /\ known = [p \in Runs |-> {}]
   /\ fs = IF pre = 0 THEN <<>>
           ELSE (Nm(0) :> [by |-> 0, w |-> {}, content |-> VName(pre), inner |-> 0])
   /\ tmp = [r \in Runs |-> NoTmp]
@@ -123,6 +139,16 @@ Init ==
   /\ used = [r \in Runs |-> -1]
   /\ seen = [r \in Runs |-> NoSeen]
   /\ lastOp = Op(0, "init", "", "", "")
+
+\* entry of rename_and_write: after the earlier runs of the same process
+Begin(r) ==
+  /\ pc[r] = "idle"
+  /\ \A q \in Runs : (q < r /\ proc[q] = proc[r] /\ pc[q] # "off") => pc[q] = "done"
+  /\ pc' = [pc EXCEPT ![r] = IF scheme = "single" THEN "mktemp" ELSE "create"]
+  /\ lastOp' = Op(r, "begin", "", "ok", "")
+  /\ UNCHANGED <<scheme, pre, ver, split, proc, known, fs, tmp, idx, fd, used, seen, res>>
+
+Learn(r, n, c) == known' = [known EXCEPT ![proc[r]] = @ \cup {<<n, c>>}]
 
 \* ----------------------------------------------------------------- 'multiple'
 Create(r) ==
@@ -138,7 +164,7 @@ Create(r) ==
      ELSE /\ idx' = [idx EXCEPT ![r] = @ + 1]           \* continue with the next name
           /\ UNCHANGED <<fs, fd, used, pc>>
           /\ lastOp' = Op(r, "creat", n, "EEXIST", "")
-  /\ UNCHANGED <<scheme, pre, ver, split, tmp, seen, res>>
+  /\ UNCHANGED <<scheme, pre, ver, split, proc, known, tmp, seen, res>>
 
 Write(r) ==
   /\ pc[r] \in {"write", "write2"}
@@ -149,7 +175,7 @@ Write(r) ==
                            !.w = @ \cup {r}]]
      /\ pc' = [pc EXCEPT ![r] = IF half THEN "write2" ELSE "close"]
      /\ lastOp' = Op(r, "write", fd[r], "ok", IF half THEN "partial" ELSE VName(ver[r]))
-  /\ UNCHANGED <<scheme, pre, ver, split, tmp, idx, fd, used, seen, res>>
+  /\ UNCHANGED <<scheme, pre, ver, split, proc, known, tmp, idx, fd, used, seen, res>>
 
 Close(r) ==
   /\ pc[r] = "close"
@@ -157,7 +183,8 @@ Close(r) ==
   /\ res' = [res EXCEPT ![r] = "ok"]
   /\ fd' = [fd EXCEPT ![r] = ""]
   /\ lastOp' = Op(r, "close", fd[r], "ok", "")
-  /\ UNCHANGED <<scheme, pre, ver, split, fs, tmp, idx, used, seen>>
+  /\ Learn(r, fd[r], fs[fd[r]].content)
+  /\ UNCHANGED <<scheme, pre, ver, split, proc, fs, tmp, idx, used, seen>>
 
 \* ------------------------------------------------------------------- 'single'
 MkTemp(r) ==
@@ -167,7 +194,7 @@ MkTemp(r) ==
   /\ fd' = [fd EXCEPT ![r] = "tmp"]
   /\ pc' = [pc EXCEPT ![r] = "wtmp"]
   /\ lastOp' = Op(r, "mkstemp", "tmp", "ok", "")
-  /\ UNCHANGED <<scheme, pre, ver, split, fs, idx, seen, res>>
+  /\ UNCHANGED <<scheme, pre, ver, split, proc, known, fs, idx, seen, res>>
 
 WriteTmp(r) ==
   /\ pc[r] \in {"wtmp", "wtmp2"}
@@ -176,14 +203,14 @@ WriteTmp(r) ==
                                   ELSE [content |-> VName(ver[r]), inner |-> used[r]]]
      /\ pc' = [pc EXCEPT ![r] = IF half THEN "wtmp2" ELSE "ctmp"]
      /\ lastOp' = Op(r, "write", "tmp", "ok", IF half THEN "partial" ELSE VName(ver[r]))
-  /\ UNCHANGED <<scheme, pre, ver, split, fs, idx, fd, used, seen, res>>
+  /\ UNCHANGED <<scheme, pre, ver, split, proc, known, fs, idx, fd, used, seen, res>>
 
 CloseTmp(r) ==
   /\ pc[r] = "ctmp"
   /\ pc' = [pc EXCEPT ![r] = "link"]
   /\ fd' = [fd EXCEPT ![r] = ""]
   /\ lastOp' = Op(r, "close", "tmp", "ok", "")
-  /\ UNCHANGED <<scheme, pre, ver, split, fs, tmp, idx, used, seen, res>>
+  /\ UNCHANGED <<scheme, pre, ver, split, proc, known, fs, tmp, idx, used, seen, res>>
 
 \* os.link is atomic: the final name appears with the complete content of the
 \* temporary file, or the call fails because the name exists
@@ -194,11 +221,12 @@ Link(r) ==
      THEN /\ fs' = fs @@ (n :> [by |-> r, w |-> {}, content |-> tmp[r].content,
                                  inner |-> tmp[r].inner])
           /\ pc' = [pc EXCEPT ![r] = "unlinkp"]
+          /\ Learn(r, n, tmp[r].content)
           /\ lastOp' = Op(r, "link", n, "ok", "")
      ELSE /\ pc' = [pc EXCEPT ![r] = "unlinkx"]
-          /\ UNCHANGED fs
+          /\ UNCHANGED <<fs, known>>
           /\ lastOp' = Op(r, "link", n, "EEXIST", "")
-  /\ UNCHANGED <<scheme, pre, ver, split, tmp, idx, fd, used, seen, res>>
+  /\ UNCHANGED <<scheme, pre, ver, split, proc, tmp, idx, fd, used, seen, res>>
 
 UnlinkTmp(r) ==
   /\ pc[r] \in {"unlinkp", "unlinkx"}
@@ -206,13 +234,13 @@ UnlinkTmp(r) ==
   /\ pc' = [pc EXCEPT ![r] = IF pc[r] = "unlinkp" THEN "done" ELSE "openr"]
   /\ res' = [res EXCEPT ![r] = IF pc[r] = "unlinkp" THEN "ok" ELSE @]
   /\ lastOp' = Op(r, "unlink", "tmp", "ok", "")
-  /\ UNCHANGED <<scheme, pre, ver, split, fs, idx, fd, used, seen>>
+  /\ UNCHANGED <<scheme, pre, ver, split, proc, known, fs, idx, fd, used, seen>>
 
 OpenR(r) ==
   /\ pc[r] = "openr"
   /\ pc' = [pc EXCEPT ![r] = "read"]
   /\ lastOp' = Op(r, "openr", Nm(idx[r]), "ok", "")
-  /\ UNCHANGED <<scheme, pre, ver, split, fs, tmp, idx, fd, used, seen, res>>
+  /\ UNCHANGED <<scheme, pre, ver, split, proc, known, fs, tmp, idx, fd, used, seen, res>>
 
 Read(r) ==
   /\ pc[r] = "read"
@@ -223,16 +251,19 @@ Read(r) ==
      /\ res' = [res EXCEPT ![r] = IF f.content = VName(ver[r]) /\ f.inner = used[r]
                                   THEN "ok" ELSE "error"]
      /\ lastOp' = Op(r, "read", Nm(idx[r]), "ok", f.content)
+     /\ IF f.content = VName(ver[r]) /\ f.inner = used[r]
+        THEN Learn(r, Nm(idx[r]), f.content) ELSE UNCHANGED known
   /\ pc' = [pc EXCEPT ![r] = "closer"]
-  /\ UNCHANGED <<scheme, pre, ver, split, fs, tmp, idx, fd, used>>
+  /\ UNCHANGED <<scheme, pre, ver, split, proc, fs, tmp, idx, fd, used>>
 
 CloseR(r) ==
   /\ pc[r] = "closer"
   /\ pc' = [pc EXCEPT ![r] = "done"]
   /\ lastOp' = Op(r, "closer", Nm(idx[r]), "ok", "")
-  /\ UNCHANGED <<scheme, pre, ver, split, fs, tmp, idx, fd, used, seen, res>>
+  /\ UNCHANGED <<scheme, pre, ver, split, proc, known, fs, tmp, idx, fd, used, seen, res>>
 
-RunStep(r) == \/ Create(r) \/ Write(r) \/ Close(r)
+RunStep(r) == \/ Begin(r)
+              \/ Create(r) \/ Write(r) \/ Close(r)
               \/ MkTemp(r) \/ WriteTmp(r) \/ CloseTmp(r) \/ Link(r) \/ UnlinkTmp(r)
               \/ OpenR(r) \/ Read(r) \/ CloseR(r)
 Next == \E r \in Runs : RunStep(r)
@@ -243,7 +274,7 @@ AllDone == \A r \in Runs : pc[r] \in {"done", "off"}
 \* ------------------------------------------------------------------ invariants
 TypeOK ==
   /\ scheme \in {"multiple", "single"}
-  /\ \A r \in Runs : pc[r] \in {"off", "create", "write", "write2", "close",
+  /\ \A r \in Runs : pc[r] \in {"off", "idle", "create", "write", "write2", "close",
                                 "mktemp", "wtmp", "wtmp2", "ctmp", "link",
                                 "unlinkp", "unlinkx", "openr", "read", "closer", "done"}
   /\ \A r \in Runs : res[r] \in {"off", "run", "ok", "error"}
@@ -274,6 +305,12 @@ SingleStep == scheme = "single" =>
 \* model-level hygiene (not a property clause): no temporary file is left behind
 TempsRemoved == AllDone => \A r \in Runs : tmp[r] = NoTmp
 
+\* what a process remembers having written or verified is still on disk: a
+\* memory keyed by name AND content could be trusted, one keyed by name alone
+\* could not (another version may be presented under the same name)
+MemorySound == \A p \in Runs : \A k \in known[p] :
+                  k[1] \in DOMAIN fs /\ fs[k[1]].content = k[2]
+
 \* every run terminates (no run waits for another one)
 NoStuck == ~AllDone => \E r \in Runs : ENABLED RunStep(r)
 
@@ -286,8 +323,8 @@ FsKey  == [t \in 1..(MaxTag + 1) |->
              THEN LET f == fs[Nm(t - 1)] IN <<f.by, f.w, f.content, f.inner>>
              ELSE <<>>]
 TmpKey == [r \in Runs |-> <<tmp[r].content, tmp[r].inner>>]
-Abs  == <<scheme, pre, ver, FsKey, pc, idx, used, res, [r \in Runs |-> seen[r].c], TmpKey, split>>
-View == <<scheme, pre, ver, split, fs, tmp, pc, idx, fd, used, seen, res>>
+Abs  == <<scheme, pre, ver, FsKey, pc, idx, used, res, [r \in Runs |-> seen[r].c], TmpKey, split, proc>>
+View == <<scheme, pre, ver, split, proc, known, fs, tmp, pc, idx, fd, used, seen, res>>
 ViolatedClauses ==
    (IF ~MultipleFresh THEN {"MultipleFresh"} ELSE {}) \cup
    (IF ~SingleShared THEN {"SingleShared"} ELSE {}) \cup
@@ -297,7 +334,8 @@ OpKey(o) == <<o.run, o.call, o.name, o.res, o.cls>>
 \* Which cases have their transitions printed (all cases are always CHECKED).
 \* The quick configuration overrides DumpWanted <- DumpQuick: every case of one or
 \* two runs with atomic writes, the two-run split-write cases that start from an
-\* empty directory, and the three-run cases with versions <<1, 1, 2>>.
+\* empty directory, and the three-run cases with versions <<1, 1, 2>> (every
+\* assignment of the three runs to processes).
 DumpWanted == TRUE
 DumpQuick  == LET n == Cardinality(Active) IN
               \/ n <= 2 /\ (~split \/ (n = 2 /\ pre = 0))
